@@ -111,7 +111,7 @@ MaxOf(S) == IF S = {} THEN 0 ELSE CHOOSE x \in S : \A y \in S : y <= x
 (*         seen  : serial numbers handed out so far                                   *)
 ActiveRoots(rs) == {r \in rs : r.active}
 ExactlyOneActive(s) == s.roots = {} \/ Cardinality(ActiveRoots(s.roots)) = 1
-\* a root SET is keyed by id (duplicate ids in one request are outside the model)
+\* a root SET is keyed by id; a request listing an id twice (stale copy + new active entry) asks for the active one (CATrace RootSetOf)
 ValidRootSet(rs) == Cardinality(ActiveRoots(rs)) = 1 /\ \A r \in rs : r.id # ""
 \* CACheckAndSetConfig's comparison
 CfgMatches(s, ccas) == IF s.cfg.v = "" THEN ccas = 0 ELSE s.cfg.mi = ccas
